@@ -18,29 +18,35 @@ open NmlVerif
 /-- the candidate members: declared for exactly the child's class -/
 def cands (T : Table) (parent child : Obj) : List MemberSpec := targets (T.getMembers parent.cls) child.cls
 
-/-- what the call returns once member `m` was selected and `__add` did `r` -/
+/-- the outcome once member `m` was selected -/
 theorem add_eq_of_select (T : Table) (valid : Obj → Bool) (g : Gate) (parent child : Obj) (hint : Option Nat)
     (force : Bool) (m : MemberSpec) (hs : select true (cands T parent child) hint = .ok (some m)) :
     add T valid g parent child hint force =
       match place parent child m force with
-      | .error e => (parent, .error e)
-      | .ok (p', w) => if g.on && !valid p' then (p', .error .invalid) else (p', .ok (child, w)) := by
+      | .error e => ⟨parent, none, .error e⟩
+      | .ok (p', w) => ⟨p', w, if g.on && !valid p' then .error .invalid else .ok child⟩ := by
   unfold cands at hs
   simp only [add, addWith, addCore, hs]
   rfl
+
+/-- the outcome once member `m` was selected and `__add` can store -/
+theorem add_stores (T : Table) (valid : Obj → Bool) (g : Gate) (parent child : Obj) (hint : Option Nat)
+    (force : Bool) (m : MemberSpec) (hs : select true (cands T parent child) hint = .ok (some m))
+    (hst : Storable parent child m force) :
+    StoredIn parent (add T valid g parent child hint force).parent m child ∧
+    (add T valid g parent child hint force).warn = none := by
+  rw [add_eq_of_select T valid g parent child hint force m hs]
+  obtain ⟨p', hp, hsi⟩ := place_storable hst
+  rw [hp]
+  exact ⟨hsi, rfl⟩
 
 /-- **Unique target.** Exactly one member is declared for the child's type and `__add` can store (the slot is
     free, or `force`): afterwards the child is in that member — appended / assigned — and the parent is otherwise
     the same object: no other attribute changed. (Holds whether or not the validation that follows raises.) -/
 theorem c10_unique_stores (T : Table) (valid : Obj → Bool) (g : Gate) (parent child : Obj) (hint : Option Nat)
     (force : Bool) (m : MemberSpec) (hu : cands T parent child = [m]) (hst : Storable parent child m force) :
-    StoredIn parent (add T valid g parent child hint force).1 m child := by
-  have hs : select true (cands T parent child) hint = .ok (some m) := by rw [hu]; rfl
-  rw [add_eq_of_select T valid g parent child hint force m hs]
-  obtain ⟨p', hp, hsi⟩ := place_storable hst
-  rw [hp]
-  simp only
-  split <;> exact hsi
+    StoredIn parent (add T valid g parent child hint force).parent m child :=
+  (add_stores T valid g parent child hint force m (by rw [hu]; rfl) hst).1
 
 /-- **Hint selects among several.** With two or more candidates the one named by the hint receives the child
     (member names are distinct along the class chain: `c10_gen_names_nodup` for the shipped table). -/
@@ -48,38 +54,28 @@ theorem c10_hint_selects (T : Table) (valid : Obj → Bool) (g : Gate) (parent c
     (force : Bool) (m : MemberSpec) (hmany : 2 ≤ (cands T parent child).length)
     (hnd : (T.memberNames parent.cls).Nodup) (hm : m ∈ cands T parent child) (hname : m.name = h)
     (hst : Storable parent child m force) :
-    StoredIn parent (add T valid g parent child (some h) force).1 m child := by
+    StoredIn parent (add T valid g parent child (some h) force).parent m child := by
   have hf := find?_of_nodup_names h (targets_names_nodup child.cls hnd) hm hname
-  have hs := select_many_hit true hmany h m hf
-  rw [add_eq_of_select T valid g parent child (some h) force m hs]
-  obtain ⟨p', hp, hsi⟩ := place_storable hst
-  rw [hp]
-  simp only
-  split <;> exact hsi
+  exact (add_stores T valid g parent child (some h) force m (select_many_hit true hmany h m hf) hst).1
 
 /-- the same without assuming distinct names: the FIRST candidate carrying the hinted name is used -/
 theorem c10_hint_selects_first (T : Table) (valid : Obj → Bool) (g : Gate) (parent child : Obj) (h : Nat)
     (force : Bool) (m : MemberSpec) (hmany : 2 ≤ (cands T parent child).length)
     (hf : (cands T parent child).find? (fun x => x.name == h) = some m) (hst : Storable parent child m force) :
-    StoredIn parent (add T valid g parent child (some h) force).1 m child := by
-  have hs := select_many_hit true hmany h m hf
-  rw [add_eq_of_select T valid g parent child (some h) force m hs]
-  obtain ⟨p', hp, hsi⟩ := place_storable hst
-  rw [hp]
-  simp only
-  split <;> exact hsi
+    StoredIn parent (add T valid g parent child (some h) force).parent m child :=
+  (add_stores T valid g parent child (some h) force m (select_many_hit true hmany h m hf) hst).1
 
 /-- **No member for the child's type**: raises, parent unchanged. -/
 theorem c10_no_target_raises (T : Table) (valid : Obj → Bool) (g : Gate) (parent child : Obj)
     (hint : Option Nat) (force : Bool) (h0 : cands T parent child = []) :
-    add T valid g parent child hint force = (parent, .error .noMember) := by
+    add T valid g parent child hint force = ⟨parent, none, .error .noMember⟩ := by
   unfold cands at h0
   simp only [add, addWith, addCore, h0, select]
 
 /-- **Several candidates and no hint**: raises, parent unchanged. -/
 theorem c10_ambiguous_raises (T : Table) (valid : Obj → Bool) (g : Gate) (parent child : Obj) (force : Bool)
     (hmany : 2 ≤ (cands T parent child).length) :
-    add T valid g parent child none force = (parent, .error .ambiguous) := by
+    add T valid g parent child none force = ⟨parent, none, .error .ambiguous⟩ := by
   unfold cands at hmany
   simp only [add, addWith, addCore, select_many_none true hmany]
 
@@ -87,7 +83,7 @@ theorem c10_ambiguous_raises (T : Table) (valid : Obj → Bool) (g : Gate) (pare
     before `fixes/C10-add-bad-hint-raises.patch` the call returned the child and stored nothing). -/
 theorem c10_bad_hint_raises (T : Table) (valid : Obj → Bool) (g : Gate) (parent child : Obj) (h : Nat)
     (force : Bool) (hmany : 2 ≤ (cands T parent child).length) (hmiss : ∀ m ∈ cands T parent child, m.name ≠ h) :
-    add T valid g parent child (some h) force = (parent, .error .badHint) := by
+    add T valid g parent child (some h) force = ⟨parent, none, .error .badHint⟩ := by
   unfold cands at hmany hmiss
   simp only [add, addWith, addCore, select_many_miss true hmany h hmiss, ↓reduceIte]
 
@@ -95,23 +91,25 @@ theorem c10_bad_hint_raises (T : Table) (valid : Obj → Bool) (g : Gate) (paren
 def Selected (T : Table) (parent child : Obj) (hint : Option Nat) (m : MemberSpec) : Prop :=
   select true (cands T parent child) hint = .ok (some m)
 
-/-- **Duplicate / occupied ⇒ refused unless forced.** The selected member already holds an equal child
-    (container) or any truthy value (single-valued) and `force` is off: the parent is unchanged and — unless the
-    validation of the unchanged parent raises — the call returns the child with the warning. -/
+/-- **Duplicate / occupied ⇒ refused with a warning unless forced.** The selected member already holds an equal
+    child (container) or any truthy value (single-valued) and `force` is off: the parent is unchanged, the warning
+    is issued, and the call returns the child — unless the validation of the (unchanged) parent raises. -/
 theorem c10_taken_refused (T : Table) (valid : Obj → Bool) (g : Gate) (parent child : Obj) (hint : Option Nat)
     (m : MemberSpec) (hs : Selected T parent child hint m) (ht : Taken parent child m) :
-    (add T valid g parent child hint false).1 = parent ∧
-    ((add T valid g parent child hint false).2 = .ok (child, some (warnOf m)) ∨
-     (g.on = true ∧ valid parent = false ∧ (add T valid g parent child hint false).2 = .error .invalid)) := by
+    (add T valid g parent child hint false).parent = parent ∧
+    (add T valid g parent child hint false).warn = some (warnOf m) ∧
+    ((add T valid g parent child hint false).result = .ok child ∨
+     (g.on = true ∧ valid parent = false ∧ (add T valid g parent child hint false).result = .error .invalid)) := by
   rw [add_eq_of_select T valid g parent child hint false m hs, place_taken ht]
-  simp only
-  cases hg : g.on <;> cases hv : valid parent <;> simp
+  refine ⟨rfl, rfl, ?_⟩
+  cases hg : g.on <;> cases hv : valid parent <;> simp [hv]
 
 /-- **… unless forced**: with `force` the child is stored although the member is taken
-    (appended a second time / the old value overwritten). -/
+    (appended a second time / the old value overwritten), without warning. -/
 theorem c10_taken_forced (T : Table) (valid : Obj → Bool) (g : Gate) (parent child : Obj) (hint : Option Nat)
     (m : MemberSpec) (hs : Selected T parent child hint m) (ht : Taken parent child m) :
-    StoredIn parent (add T valid g parent child hint true).1 m child := by
+    StoredIn parent (add T valid g parent child hint true).parent m child ∧
+    (add T valid g parent child hint true).warn = none := by
   have hst : Storable parent child m true := by
     unfold Storable; unfold Taken at ht
     cases hc : m.container with
@@ -120,144 +118,160 @@ theorem c10_taken_forced (T : Table) (valid : Obj → Bool) (g : Gate) (parent c
       obtain ⟨l, hl, _⟩ := ht
       exact ⟨l, hl, Or.inl trivial⟩
     | false => simp
-  rw [add_eq_of_select T valid g parent child hint true m hs]
-  obtain ⟨p', hp, hsi⟩ := place_storable hst
-  rw [hp]
-  simp only
-  split <;> exact hsi
+  exact add_stores T valid g parent child hint true m hs hst
 
-/-- **Returns the stored object.** Whenever the call returns, it returns the very object it was given; without a
-    warning that object now sits in a candidate member (and nothing else changed), with a warning nothing was
-    stored, `force` was off and the member was taken. -/
-theorem c10_returns_stored (T : Table) (valid : Obj → Bool) (g : Gate) (parent child : Obj) (hint : Option Nat)
-    (force : Bool) (o : Obj) (w : Option Warn)
-    (hr : (add T valid g parent child hint force).2 = .ok (o, w)) :
-    o = child ∧
-    (w = none → ∃ m ∈ cands T parent child, StoredIn parent (add T valid g parent child hint force).1 m child) ∧
-    (∀ x, w = some x → (add T valid g parent child hint force).1 = parent ∧ force = false ∧
-        ∃ m ∈ cands T parent child, Taken parent child m ∧ x = warnOf m) := by
+/-- everything a call can do, in one statement (the other theorems are read off from it) -/
+theorem add_cases (T : Table) (valid : Obj → Bool) (g : Gate) (parent child : Obj) (hint : Option Nat)
+    (force : Bool) :
+    let r := add T valid g parent child hint force
+    -- (1) no unique member can be determined
+    (r.parent = parent ∧ r.warn = none ∧
+        (r.result = .error .noMember ∨ r.result = .error .ambiguous ∨ r.result = .error .badHint))
+    -- (2) stored
+    ∨ (∃ m ∈ cands T parent child, Selected T parent child hint m ∧ Storable parent child m force ∧
+        StoredIn parent r.parent m child ∧ r.warn = none ∧
+        r.result = if g.on && !valid r.parent then .error .invalid else .ok child)
+    -- (3) refused
+    ∨ (∃ m ∈ cands T parent child, Selected T parent child hint m ∧ Taken parent child m ∧ force = false ∧
+        r.parent = parent ∧ r.warn = some (warnOf m) ∧
+        r.result = if g.on && !valid parent then .error .invalid else .ok child)
+    -- (4) malformed parent: the selected member has no attribute / a container that is not a list
+    ∨ (∃ m ∈ cands T parent child, Selected T parent child hint m ∧ ¬ Storable parent child m force ∧
+        ¬ Taken parent child m ∧ r.parent = parent ∧ r.warn = none ∧
+        (r.result = .error .keyError ∨ r.result = .error .notAList)) := by
+  intro r
   cases hs : select true (cands T parent child) hint with
   | error e =>
-    unfold cands at hs
-    simp [add, addWith, addCore, hs] at hr
+    left
+    have hr : r = ⟨parent, none, .error e⟩ := by
+      unfold cands at hs
+      simp only [r, add, addWith, addCore, hs]
+    rw [hr]
+    refine ⟨rfl, rfl, ?_⟩
+    revert hs
+    generalize cands T parent child = ts
+    intro hs
+    match ts, hs with
+    | [], hs => simp only [select, Except.error.injEq] at hs; subst hs; simp
+    | [a], hs => simp [select] at hs
+    | a :: b :: rest, hs =>
+      cases hint with
+      | none => simp only [select, Except.error.injEq] at hs; subst hs; simp
+      | some hn =>
+        simp only [select] at hs
+        split at hs
+        · cases hs
+        · simp only [↓reduceIte, Except.error.injEq] at hs; subst hs; simp
   | ok om =>
     cases om with
     | none => exact absurd hs select_strict_ne_none
     | some m =>
       have hmem := select_ok_mem hs
-      rw [add_eq_of_select T valid g parent child hint force m hs] at hr ⊢
-      rcases place_cases parent child m force with ⟨p', hp, _, hsi⟩ | ⟨hp, hf, ht⟩ | ⟨hp, _, _⟩
-      · rw [hp] at hr ⊢
-        simp only at hr ⊢
-        split at hr
-        · cases hr
-        · simp only [Except.ok.injEq, Prod.mk.injEq] at hr
-          obtain ⟨rfl, rfl⟩ := hr
-          rename_i hcond
-          simp only [hcond]
-          exact ⟨trivial, fun _ => ⟨m, hmem, hsi⟩, fun x hx => by cases hx⟩
-      · rw [hp] at hr ⊢
-        simp only at hr ⊢
-        split at hr
-        · cases hr
-        · simp only [Except.ok.injEq, Prod.mk.injEq] at hr
-          obtain ⟨rfl, rfl⟩ := hr
-          rename_i hcond
-          simp only [hcond]
-          refine ⟨trivial, fun h => by simp at h, fun x hx => ?_⟩
-          simp only [Option.some.injEq] at hx
-          exact ⟨by simp, hf, m, hmem, ht, hx.symm⟩
-      · rcases hp with hp | hp <;> rw [hp] at hr <;> cases hr
+      have hr : r = _ := add_eq_of_select T valid g parent child hint force m hs
+      rcases place_cases parent child m force with ⟨p', hp, hst, hsi⟩ | ⟨hp, hf, ht⟩ | ⟨hp, hns, hnt⟩
+      · right; left
+        rw [hp] at hr
+        rw [hr]
+        exact ⟨m, hmem, hs, hst, hsi, rfl, rfl⟩
+      · right; right; left
+        rw [hp] at hr
+        rw [hr]
+        exact ⟨m, hmem, hs, ht, hf, rfl, rfl, rfl⟩
+      · right; right; right
+        rcases hp with hp | hp <;> rw [hp] at hr <;> rw [hr]
+        · exact ⟨m, hmem, hs, hns, hnt, rfl, rfl, Or.inl rfl⟩
+        · exact ⟨m, hmem, hs, hns, hnt, rfl, rfl, Or.inr rfl⟩
+
+/-- **Returns the stored object.** Whenever the call returns, it returns the very object it was given; without a
+    warning that object now sits in a candidate member (and nothing else changed), with a warning nothing was
+    stored, `force` was off and the member was taken. -/
+theorem c10_returns_stored (T : Table) (valid : Obj → Bool) (g : Gate) (parent child : Obj) (hint : Option Nat)
+    (force : Bool) (o : Obj) (hr : (add T valid g parent child hint force).result = .ok o) :
+    o = child ∧
+    ((add T valid g parent child hint force).warn = none →
+        ∃ m ∈ cands T parent child, StoredIn parent (add T valid g parent child hint force).parent m child) ∧
+    (∀ x, (add T valid g parent child hint force).warn = some x →
+        (add T valid g parent child hint force).parent = parent ∧ force = false ∧
+        ∃ m ∈ cands T parent child, Taken parent child m ∧ x = warnOf m) := by
+  have hc := add_cases T valid g parent child hint force
+  simp only at hc
+  rcases hc with ⟨_, _, h | h | h⟩ | ⟨m, hm, _, _, hsi, hw, hres⟩ | ⟨m, hm, _, ht, hf, hp, hw, hres⟩ |
+      ⟨m, _, _, _, _, _, _, h | h⟩
+  · rw [h] at hr; cases hr
+  · rw [h] at hr; cases hr
+  · rw [h] at hr; cases hr
+  · rw [hres] at hr
+    split at hr
+    · cases hr
+    · simp only [Except.ok.injEq] at hr
+      exact ⟨hr.symm, fun _ => ⟨m, hm, hsi⟩, fun x hx => by rw [hw] at hx; cases hx⟩
+  · rw [hres] at hr
+    split at hr
+    · cases hr
+    · simp only [Except.ok.injEq] at hr
+      refine ⟨hr.symm, fun h => (by rw [hw] at h; cases h), fun x hx => ?_⟩
+      rw [hw] at hx
+      simp only [Option.some.injEq] at hx
+      exact ⟨hp, hf, m, hm, ht, hx.symm⟩
+  · rw [h] at hr; cases hr
+  · rw [h] at hr; cases hr
 
 /-- **Raises ⇒ unchanged.** Every exception except the `ValueError` of the validation that FOLLOWS a placement
     leaves the parent exactly as it was; that `ValueError` occurs only with both switches on and reports that the
     parent as it now is does not validate. -/
 theorem c10_raise_unchanged (T : Table) (valid : Obj → Bool) (g : Gate) (parent child : Obj) (hint : Option Nat)
-    (force : Bool) (e : Err) (hr : (add T valid g parent child hint force).2 = .error e) :
-    (e ≠ .invalid → (add T valid g parent child hint force).1 = parent) ∧
-    (e = .invalid → g.on = true ∧ valid (add T valid g parent child hint force).1 = false) := by
-  cases hs : select true (cands T parent child) hint with
-  | error e' =>
-    unfold cands at hs
-    simp only [add, addWith, addCore, hs] at hr ⊢
-    simp only [Except.error.injEq] at hr
-    subst hr
-    refine ⟨fun _ => trivial, fun h => ?_⟩
-    subst h
-    exfalso
-    revert hs
-    generalize targets (T.getMembers parent.cls) child.cls = ts
-    intro hs
-    match ts, hs with
-    | [], hs => simp [select] at hs
-    | [a], hs => simp [select] at hs
-    | a :: b :: r, hs =>
-      cases hint with
-      | none => simp [select] at hs
-      | some hn =>
-        simp only [select] at hs
-        split at hs <;> simp at hs
-  | ok om =>
-    cases om with
-    | none => exact absurd hs select_strict_ne_none
-    | some m =>
-      rw [add_eq_of_select T valid g parent child hint force m hs] at hr ⊢
-      rcases place_cases parent child m force with ⟨p', hp, _, _⟩ | ⟨hp, _, _⟩ | ⟨hp, _, _⟩
-      · rw [hp] at hr ⊢
-        simp only at hr ⊢
-        split at hr
-        · rename_i hcond
-          simp only [hcond, ↓reduceIte]
-          simp only [Except.error.injEq] at hr
-          subst hr
-          simp only [Bool.and_eq_true, Bool.not_eq_true'] at hcond
-          exact ⟨fun h => absurd rfl h, fun _ => hcond⟩
-        · cases hr
-      · rw [hp] at hr ⊢
-        simp only at hr ⊢
-        split at hr
-        · rename_i hcond
-          simp only [hcond, ↓reduceIte]
-          simp only [Except.error.injEq] at hr
-          subst hr
-          simp only [Bool.and_eq_true, Bool.not_eq_true'] at hcond
-          exact ⟨fun _ => trivial, fun _ => hcond⟩
-        · cases hr
-      · rcases hp with hp | hp <;> rw [hp] at hr ⊢ <;> simp only [Except.error.injEq] at hr <;> subst hr <;>
-          exact ⟨fun _ => rfl, fun h => by cases h⟩
+    (force : Bool) (e : Err) (hr : (add T valid g parent child hint force).result = .error e) :
+    (e ≠ .invalid → (add T valid g parent child hint force).parent = parent) ∧
+    (e = .invalid → g.on = true ∧ valid (add T valid g parent child hint force).parent = false) := by
+  have hc := add_cases T valid g parent child hint force
+  simp only at hc
+  rcases hc with ⟨hp, _, h | h | h⟩ | ⟨m, _, _, _, _, _, hres⟩ | ⟨m, _, _, _, _, hp, _, hres⟩ |
+      ⟨m, _, _, _, _, hp, _, h | h⟩
+  · rw [h] at hr; cases hr; exact ⟨fun _ => hp, fun h => by cases h⟩
+  · rw [h] at hr; cases hr; exact ⟨fun _ => hp, fun h => by cases h⟩
+  · rw [h] at hr; cases hr; exact ⟨fun _ => hp, fun h => by cases h⟩
+  · rw [hres] at hr
+    split at hr
+    · rename_i hcond
+      simp only [Except.error.injEq] at hr
+      subst hr
+      simp only [Bool.and_eq_true, Bool.not_eq_true'] at hcond
+      exact ⟨fun h => absurd rfl h, fun _ => hcond⟩
+    · cases hr
+  · rw [hres] at hr
+    split at hr
+    · rename_i hcond
+      simp only [Except.error.injEq] at hr
+      subst hr
+      simp only [Bool.and_eq_true, Bool.not_eq_true'] at hcond
+      exact ⟨fun _ => hp, fun _ => by rw [hp]; exact hcond⟩
+    · cases hr
+  · rw [h] at hr; cases hr; exact ⟨fun _ => hp, fun h => by cases h⟩
+  · rw [h] at hr; cases hr; exact ⟨fun _ => hp, fun h => by cases h⟩
 
 /-- **At most one member, always a candidate.** In every case — return or raise — the parent afterwards is either
     exactly the parent before, or the parent with the child stored in ONE candidate member and nothing else
     altered. -/
 theorem c10_exactly_one_or_nothing (T : Table) (valid : Obj → Bool) (g : Gate) (parent child : Obj)
     (hint : Option Nat) (force : Bool) :
-    (add T valid g parent child hint force).1 = parent ∨
-    ∃ m ∈ cands T parent child, StoredIn parent (add T valid g parent child hint force).1 m child := by
-  cases hs : select true (cands T parent child) hint with
-  | error e =>
-    unfold cands at hs
-    left; simp only [add, addWith, addCore, hs]
-  | ok om =>
-    cases om with
-    | none => exact absurd hs select_strict_ne_none
-    | some m =>
-      have hmem := select_ok_mem hs
-      rw [add_eq_of_select T valid g parent child hint force m hs]
-      rcases place_cases parent child m force with ⟨p', hp, _, hsi⟩ | ⟨hp, _, _⟩ | ⟨hp, _, _⟩
-      · right
-        refine ⟨m, hmem, ?_⟩
-        rw [hp]; simp only; split <;> exact hsi
-      · left; rw [hp]; simp only; split <;> rfl
-      · left; rcases hp with hp | hp <;> rw [hp]
+    (add T valid g parent child hint force).parent = parent ∨
+    ∃ m ∈ cands T parent child, StoredIn parent (add T valid g parent child hint force).parent m child := by
+  have hc := add_cases T valid g parent child hint force
+  simp only at hc
+  rcases hc with ⟨hp, _⟩ | ⟨m, hm, _, _, hsi, _⟩ | ⟨m, _, _, _, _, hp, _⟩ | ⟨m, _, _, _, _, hp, _⟩
+  · exact Or.inl hp
+  · exact Or.inr ⟨m, hm, hsi⟩
+  · exact Or.inl hp
+  · exact Or.inl hp
 
 /-- **No other member is touched** (frame): an attribute that is not the name of a candidate member has the same
     value before and after, whatever the call did; identity and class of the parent never change. -/
 theorem c10_frame (T : Table) (valid : Obj → Bool) (g : Gate) (parent child : Obj) (hint : Option Nat)
     (force : Bool) :
-    (add T valid g parent child hint force).1.oid = parent.oid ∧
-    (add T valid g parent child hint force).1.cls = parent.cls ∧
+    (add T valid g parent child hint force).parent.oid = parent.oid ∧
+    (add T valid g parent child hint force).parent.cls = parent.cls ∧
     ∀ n, (∀ m ∈ cands T parent child, m.name ≠ n) →
-      (add T valid g parent child hint force).1.get n = parent.get n := by
+      (add T valid g parent child hint force).parent.get n = parent.get n := by
   rcases c10_exactly_one_or_nothing T valid g parent child hint force with h | ⟨m, hm, h1, h2, h3, _⟩
   · rw [h]; exact ⟨rfl, rfl, fun _ _ => rfl⟩
   · exact ⟨h1, h2, fun n hn => h3 n (fun e => hn m hm e.symm)⟩
@@ -273,7 +287,7 @@ theorem c10_cands_spec (T : Table) (parent child : Obj) (m : MemberSpec) :
 theorem c10_wf_preserved (T : Table) (valid : Obj → Bool) (g : Gate) (parent child : Obj) (hint : Option Nat)
     (force : Bool) (hnd : (T.memberNames parent.cls).Nodup)
     (hwf : wfFor (T.getMembers parent.cls) parent = true) :
-    wfFor (T.getMembers (add T valid g parent child hint force).1.cls) (add T valid g parent child hint force).1
+    wfFor (T.getMembers (add T valid g parent child hint force).parent.cls) (add T valid g parent child hint force).parent
       = true := by
   rcases c10_exactly_one_or_nothing T valid g parent child hint force with h | ⟨m, hm, h1, h2, h3, h4⟩
   · rw [h]; exact hwf
@@ -299,64 +313,44 @@ theorem c10_wf_preserved (T : Table) (valid : Obj → Bool) (g : Gate) (parent c
 /-- … so from a well-formed parent no call ever fails inside `__add` (`KeyError`, `AttributeError`) … -/
 theorem c10_wf_no_internal_error (T : Table) (valid : Obj → Bool) (g : Gate) (parent child : Obj)
     (hint : Option Nat) (force : Bool) (hwf : wfFor (T.getMembers parent.cls) parent = true) :
-    (add T valid g parent child hint force).2 ≠ .error .keyError ∧
-    (add T valid g parent child hint force).2 ≠ .error .notAList := by
-  cases hs : select true (cands T parent child) hint with
-  | error e =>
-    have hne : e ≠ .keyError ∧ e ≠ .notAList := by
-      revert hs
-      generalize cands T parent child = ts
-      intro hs
-      match ts, hs with
-      | [], hs => simp only [select, Except.error.injEq] at hs; subst hs; exact ⟨by decide, by decide⟩
-      | [a], hs => simp [select] at hs
-      | a :: b :: r, hs =>
-        cases hint with
-        | none => simp only [select, Except.error.injEq] at hs; subst hs; exact ⟨by decide, by decide⟩
-        | some hn =>
-          simp only [select] at hs
-          split at hs
-          · cases hs
-          · simp only [↓reduceIte, Except.error.injEq] at hs; subst hs; exact ⟨by decide, by decide⟩
-    unfold cands at hs
-    simp only [add, addWith, addCore, hs, ne_eq, Except.error.injEq]
-    exact ⟨fun h => hne.1 h, fun h => hne.2 h⟩
-  | ok om =>
-    cases om with
-    | none => exact absurd hs select_strict_ne_none
-    | some m =>
-      have hmm : m ∈ T.getMembers parent.cls :=
-        ((c10_cands_spec T parent child m).mp (select_ok_mem hs)).1
-      rw [add_eq_of_select T valid g parent child hint force m hs]
-      rcases place_cases parent child m force with ⟨p', hp, _, _⟩ | ⟨hp, _, _⟩ | ⟨_, hns, hnt⟩
-      · rw [hp]; simp only; split <;> simp
-      · rw [hp]; simp only; split <;> simp
-      · exfalso
-        unfold wfFor at hwf
-        rw [List.all_eq_true] at hwf
-        have hmw := hwf m hmm
-        unfold Storable at hns; unfold Taken at hnt
-        cases hg : parent.get m.name with
-        | none => rw [hg] at hmw; cases hmw
-        | some v =>
-          cases hc : m.container with
-          | true =>
-            rw [hg, hc] at hmw
-            cases v with
-            | list l =>
-              simp only [hc, hg, ↓reduceIte] at hns hnt
-              cases hi : pyIn true child l with
-              | true => exact hnt ⟨l, rfl, hi⟩
-              | false => exact hns ⟨l, rfl, Or.inr hi⟩
-            | none => cases hmw
-            | atom r t => cases hmw
-            | node i => cases hmw
-            | obj o => cases hmw
-          | false =>
-            simp only [hc, hg, Bool.false_eq_true, ↓reduceIte] at hns hnt
-            cases ht : v.truthy with
-            | true => exact hnt ⟨v, rfl, ht⟩
-            | false => exact hns (Or.inr ⟨v, rfl, ht⟩)
+    (add T valid g parent child hint force).result ≠ .error .keyError ∧
+    (add T valid g parent child hint force).result ≠ .error .notAList := by
+  have hc := add_cases T valid g parent child hint force
+  simp only at hc
+  rcases hc with ⟨_, _, h | h | h⟩ | ⟨m, _, _, _, _, _, hres⟩ | ⟨m, _, _, _, _, _, _, hres⟩ |
+      ⟨m, hm, _, hns, hnt, _, _, _⟩
+  · rw [h]; exact ⟨by simp, by simp⟩
+  · rw [h]; exact ⟨by simp, by simp⟩
+  · rw [h]; exact ⟨by simp, by simp⟩
+  · rw [hres]; split <;> exact ⟨by simp, by simp⟩
+  · rw [hres]; split <;> exact ⟨by simp, by simp⟩
+  · exfalso
+    have hmm : m ∈ T.getMembers parent.cls := ((c10_cands_spec T parent child m).mp hm).1
+    unfold wfFor at hwf
+    rw [List.all_eq_true] at hwf
+    have hmw := hwf m hmm
+    unfold Storable at hns; unfold Taken at hnt
+    cases hg : parent.get m.name with
+    | none => rw [hg] at hmw; cases hmw
+    | some v =>
+      cases hc : m.container with
+      | true =>
+        rw [hg, hc] at hmw
+        cases v with
+        | list l =>
+          simp only [hc, hg, ↓reduceIte] at hns hnt
+          cases hi : pyIn true child l with
+          | true => exact hnt ⟨l, rfl, hi⟩
+          | false => exact hns ⟨l, rfl, Or.inr hi⟩
+        | none => cases hmw
+        | atom r t => cases hmw
+        | node i => cases hmw
+        | obj o => cases hmw
+      | false =>
+        simp only [hc, hg, Bool.false_eq_true, ↓reduceIte] at hns hnt
+        cases ht : v.truthy with
+        | true => exact hnt ⟨v, rfl, ht⟩
+        | false => exact hns (Or.inr ⟨v, rfl, ht⟩)
 
 /-- … after ANY sequence of earlier `add` calls (any children, hints, `force`, gates, outcomes): the parent is
     the same object of the same class, still well-formed. -/
@@ -368,7 +362,7 @@ theorem c10_history (T : Table) (valid : Obj → Bool) : ∀ (calls : List Call)
   | c :: cs, parent, hnd, hwf => by
     have hf := c10_frame T valid c.gate parent c.child c.hint c.force
     have hw := c10_wf_preserved T valid c.gate parent c.child c.hint c.force hnd hwf
-    have ih := c10_history T valid cs (add T valid c.gate parent c.child c.hint c.force).1
+    have ih := c10_history T valid cs (add T valid c.gate parent c.child c.hint c.force).parent
       (by rw [hf.2.1]; exact hnd) hw
     simp only [runCalls]
     rw [hf.2.1] at ih
@@ -417,16 +411,17 @@ equal and the second one IS stored. Full statement (value equality), the stronge
 def c10_value_duplicate_refused_full : Prop :=
   ∀ (T : Table) (valid : Obj → Bool) (g : Gate) (parent child : Obj) (hint : Option Nat) (m : MemberSpec),
     Selected T parent child hint m → TakenByValue parent child m →
-    (add T valid g parent child hint false).1 = parent
+    (add T valid g parent child hint false).parent = parent
 
 /-- true for every child built programmatically (no lxml element inside it) — and then with the full conclusion of
     `c10_taken_refused` -/
 theorem c10_value_duplicate_refused_partial (T : Table) (valid : Obj → Bool) (g : Gate) (parent child : Obj)
     (hint : Option Nat) (m : MemberSpec) (hprog : child.nodeFree = true)
     (hs : Selected T parent child hint m) (ht : TakenByValue parent child m) :
-    (add T valid g parent child hint false).1 = parent ∧
-    ((add T valid g parent child hint false).2 = .ok (child, some (warnOf m)) ∨
-     (g.on = true ∧ valid parent = false ∧ (add T valid g parent child hint false).2 = .error .invalid)) := by
+    (add T valid g parent child hint false).parent = parent ∧
+    (add T valid g parent child hint false).warn = some (warnOf m) ∧
+    ((add T valid g parent child hint false).result = .ok child ∨
+     (g.on = true ∧ valid parent = false ∧ (add T valid g parent child hint false).result = .error .invalid)) := by
   refine c10_taken_refused T valid g parent child hint m hs ?_
   unfold TakenByValue at ht; unfold Taken
   cases hc : m.container with
@@ -463,7 +458,7 @@ def gateLoaded : Obj := .mk 100 0 [(10, .none), (11, .none), (12, .list [.obj (l
 -- c10_unique_stores: unique candidate, free slot
 example : cands T0 gate0 (note 2 "n") = [m12] ∧ Storable gate0 (note 2 "n") m12 false :=
   ⟨by decide, ⟨[], rfl, Or.inr rfl⟩⟩
-example : (add T0 (fun _ => true) on gate0 (note 2 "n") none false).1.get 12 = some (.list [.obj (note 2 "n")]) :=
+example : (add T0 (fun _ => true) on gate0 (note 2 "n") none false).parent.get 12 = some (.list [.obj (note 2 "n")]) :=
   rfl
 -- c10_hint_selects / c10_hint_selects_first: two candidates, the hint names the second
 example : 2 ≤ (cands T0 gate0 (rate 1 "a")).length ∧ (T0.memberNames gate0.cls).Nodup ∧
@@ -480,12 +475,14 @@ example : Selected T0 gate1 (rate 5 "b") (some 10) m10 ∧ Taken gate1 (rate 5 "
 example : Selected T0 gate1 (note 6 "n") none m12 ∧ Taken gate1 (note 6 "n") m12 :=
   ⟨by unfold Selected; rfl, ⟨_, rfl, by decide⟩⟩
 -- c10_returns_stored / c10_raise_unchanged: both kinds of result occur, incl. the ValueError after a placement
-example : (add T0 (fun _ => true) on gate0 (note 2 "n") none false).2 = .ok (note 2 "n", none) := rfl
-example : (add T0 (fun _ => true) on gate1 (note 6 "n") none false).2 = .ok (note 6 "n", some .duplicate) := rfl
-example : (add T0 (fun _ => false) on gate0 (note 2 "n") none false).2 = .error .invalid ∧
-    (add T0 (fun _ => false) on gate0 (note 2 "n") none false).1.get 12 = some (.list [.obj (note 2 "n")]) :=
+example : (add T0 (fun _ => true) on gate0 (note 2 "n") none false).result = .ok (note 2 "n") ∧
+    (add T0 (fun _ => true) on gate0 (note 2 "n") none false).warn = none := ⟨rfl, rfl⟩
+example : (add T0 (fun _ => true) on gate1 (note 6 "n") none false).result = .ok (note 6 "n") ∧
+    (add T0 (fun _ => true) on gate1 (note 6 "n") none false).warn = some .duplicate := ⟨rfl, rfl⟩
+example : (add T0 (fun _ => false) on gate0 (note 2 "n") none false).result = .error .invalid ∧
+    (add T0 (fun _ => false) on gate0 (note 2 "n") none false).parent.get 12 = some (.list [.obj (note 2 "n")]) :=
   ⟨rfl, rfl⟩
-example : (add T0 (fun _ => true) on gate0 (rate 1 "a") none false).2 = .error .ambiguous := rfl
+example : (add T0 (fun _ => true) on gate0 (rate 1 "a") none false).result = .error .ambiguous := rfl
 -- c10_wf_preserved / c10_history / c10_wf_no_internal_error: a derived class, inherited members included
 example : (T0.memberNames 3).Nodup ∧ T0.getMembers 3 = [m13, m10, m11, m12] ∧
     wfFor (T0.getMembers 3) (.mk 7 3 [(10, .none), (11, .none), (12, .list []), (13, .list [])]) = true := by decide
